@@ -6,8 +6,12 @@ package main
 
 import (
 	"fmt"
+	"os"
+	"os/exec"
+	"path/filepath"
 	"regexp"
 	"strings"
+	"syscall"
 
 	"github.com/rhysd/actionlint"
 )
@@ -501,7 +505,86 @@ func runC18(r *Run) {
 			c18Check(c, g, false, "lg")
 		}
 	}})
+	// dense acyclic parts: "terminates for every graph" as bounded progress. The number of PATHS of
+	// a ladder where every job needs all earlier ones is 2^(n-2); a search that does not remember
+	// finished jobs needs that many calls. Each graph is linted by the real CLI in a child process
+	// with a CPU-time limit (RLIMIT_CPU, not wall clock); the unchanged tree needs milliseconds.
+	fams = append(fams, &Family{Name: "dense-large", N: r.Q(12, 120), Par: 4, Do: func(c *Case) {
+		n := c.R.Range(40, 64)
+		g := &c18Graph{n: n, adj: make([][]int, n), dang: make([][]string, n)}
+		perm := c.R.Perm(n)
+		full := c.Idx%3 != 2 // two thirds complete ladders, one third dense random DAGs
+		for a := 0; a < n; a++ {
+			for bb := 0; bb < a; bb++ {
+				if full || c.R.Intn(10) < 8 {
+					g.adj[perm[a]] = append(g.adj[perm[a]], perm[bb])
+				}
+			}
+		}
+		cyc := c.Idx%2 == 1
+		if cyc { // a back edge from the first job of the ladder to the last one
+			g.adj[perm[0]] = append(g.adj[perm[0]], perm[n-1])
+		}
+		g.order = c.R.Perm(n)
+		if c.Idx%4 == 0 { // written in topological order: the search enters at the top of the ladder
+			for i := range g.order {
+				g.order[i] = perm[n-1-i]
+			}
+		}
+		e := c18Render(c.R, g, 3)
+		root := mkScratch("c18")
+		defer os.RemoveAll(root)
+		writeFiles(root, map[string]string{".github/workflows/w.yml": e.src, ".git/HEAD": "ref: refs/heads/main\n"})
+		const cpuBudget = 60
+		cmd := exec.Command("sh", "-c", fmt.Sprintf("ulimit -t %d; exec %s -oneline -no-color -shellcheck= -pyflakes= .github/workflows/w.yml", cpuBudget, filepath.Join(binDir(), "actionlint")))
+		cmd.Dir = root
+		outb, err := cmd.CombinedOutput()
+		c.Eval(1)
+		c.Count("dense_graphs", 1)
+		c.Count("dense_graph_edges", func() int { t := 0; for _, a := range g.adj { t += len(a) }; return t }())
+		det := map[string]interface{}{"jobs": n, "cyclic": cyc, "complete_ladder": full, "source": e.src, "output": truncate(string(outb), 2000)}
+		status := 0
+		if err != nil {
+			ee, ok := err.(*exec.ExitError)
+			if !ok {
+				c.Inconclusive("dense-large: the CLI could not be started: " + err.Error())
+				return
+			}
+			if ws, ok := ee.Sys().(syscall.WaitStatus); ok && ws.Signaled() {
+				if ws.Signal() == syscall.SIGXCPU || ws.Signal() == syscall.SIGKILL {
+					c.Violation("C18:dense-graph-check-exceeds-cpu-budget", fmt.Sprintf("the dependency check of a %d-job graph with a dense acyclic part did not finish within %d s of CPU time (the unchanged tree needs milliseconds): the search revisits finished jobs", n, cpuBudget), det)
+					return
+				}
+				c.Violation("C18:dense-graph-crash", "the CLI was killed by "+ws.Signal().String(), det)
+				return
+			}
+			status = ee.ExitCode()
+		}
+		lines := 0
+		cycles := 0
+		for _, l := range strings.Split(strings.TrimSpace(string(outb)), "\n") {
+			if l == "" {
+				continue
+			}
+			lines++
+			if strings.Contains(l, "cyclic dependencies in \"needs\"") {
+				cycles++
+			}
+		}
+		want := 0
+		if cyc {
+			want = 1
+		}
+		if cycles != want || lines != want || (status != 0) != cyc {
+			c.Violation("C18:dense-graph-verdict", fmt.Sprintf("%d-job dense graph, cyclic=%v: %d cycle diagnostics in %d lines, exit %d", n, cyc, cycles, lines, status), det)
+			return
+		}
+		c.Nontrivial(fmt.Sprintf("dense|%d|%v|%v|%x", n, cyc, full, hashStr(e.src)))
+	}})
 	r.RunFamilies(fams)
+	if r.Counter("dense_graphs") < 12 {
+		r.Inconclusive("too few dense graphs were checked under the CPU budget")
+	}
 	r.SetExhaustive(true)
 	if r.Thorough() {
 		r.Extra("exhaustive_bound", "all digraphs on <=4 jobs via Linter; all 2^25 digraphs on 5 jobs via rule API")
